@@ -742,6 +742,9 @@ def _compile_harness(src, out_name, extra_flags=None, sanitize=False, opt="-O1",
         cmd[3:3] = ["-D" + d for d in defines]
     if extra_flags:
         cmd += extra_flags
+    if os.environ.get("VERIF_GCOV_DIR"):
+        # development aid (tools/libcoverage.py): which lines of src/cocls do the replayers execute at all?
+        cmd[3:3] = ["--coverage", "-fprofile-update=atomic"]
     try:
         p = subprocess.run(cmd, stdout=subprocess.PIPE, stderr=subprocess.STDOUT, text=True, timeout=timeout)
     except subprocess.TimeoutExpired:
